@@ -193,6 +193,8 @@ class View:
                 return {k: self._wrap(x) for k, x in cell.items.items()}
         if isinstance(v, tuple):
             return tuple(self._wrap(x) for x in v)
+        if type(v).__name__ == 'AbsObj':
+            return View(self._c, v.attrs, self._heap)
         return v
 
     def __getattr__(self, name):
